@@ -395,5 +395,5 @@ def space(tier):
     def counter(j, rng):
         return {"mode": "counter", "config": {"version": 3, "key": rand_bytes(rng, 32).hex()},
                 "count": 4300 if tier == "quick" or j else 70000}
-    sp.add("counter", 2 if tier == "quick" else 3, counter)
+    sp.add("counter", 2 if tier == "quick" else 3, counter, wall_limit=600)
     return sp
